@@ -275,7 +275,18 @@ Fixpoint run_hist (fuel : nat) (h : hist) (ops : list Z) : list Z :=
     | 6%Z :: j :: r =>
       let '(_, _, _, tr) := update UPDATE_FUEL (h_p h) (node_of h) (h_st h) [] in
       let st' := match Z.to_nat j with
-                 | O => h_st h
+                 | O =>
+                   (* aborted in the middle of the first block that gets indexed: nothing of that
+                      pass is durable; if the first pass detected a recoverable reorg, the
+                      rollback commit has already happened *)
+                   match pass (h_p h) (node_of h) (h_st h) with
+                   | (Reorged (Recoverable rh rd), s1, _) =>
+                     match handle_reorg (h_p h) s1 rh rd with
+                     | Restored s2 => s2
+                     | _ => h_st h
+                     end
+                   | _ => h_st h
+                   end
                  | S j' => nth j' tr (last tr (h_st h))
                  end in
       run_hist f (mkH (h_p h) (h_mode h) (h_node h) (h_hdrs h) (h_fresh h) st' false
